@@ -58,7 +58,84 @@ def check_dialogue(inp):
     return fails
 
 
-CHECKS = {"dialogue": check_dialogue}
+HOST = r"""
+import json, sys
+lead = int(sys.argv[1])
+seen = [sys.stdin.readline() for _ in range(lead)]          # the host program reads its own lines first, through the text layer
+import cvss
+version = json.loads(sys.argv[2])
+try:
+    r = {"ret": cvss.ask_interactively(version, sys.argv[3] == "1", True)}
+except EOFError:
+    r = {"eof": True}
+except BaseException as e:
+    r = {"exc": "%s: %s" % (type(e).__name__, e)}
+sys.stderr.write("\nRESULT " + json.dumps(r) + "\n")
+"""
+
+
+def check_piped(inp):
+    """
+    the builder called by a host PROGRAM in a real child process: standard input is a pipe that already holds everything, and the
+    host has read `lead` lines of its own from it before it calls the builder.  The result must be what the model makes of the
+    remaining lines.
+    """
+    import json
+    import subprocess
+    import sys
+    version, allm, answers, lead = inp["version"], inp["all_metrics"], inp["answers"], inp["lead"]
+    ver = interact.verkey(version)
+    data = ("".join("host line %d\n" % i for i in range(lead)) + "".join(a + "\n" for a in answers)).encode("utf-8")
+    env = dict(__import__("os").environ, PYTHONPATH=runner.REPO, PYTHONIOENCODING="utf-8")
+    p = subprocess.run([sys.executable, "-c", HOST, str(lead), json.dumps(version), "1" if allm else "0"], input=data, stdout=subprocess.PIPE,
+                       stderr=subprocess.PIPE, env=env, cwd="/", timeout=120)
+    err = p.stderr.decode("utf-8", "replace")
+    if "RESULT " not in err:
+        return [failure("a result", "exit %s: %s" % (p.returncode, err[-300:]))]
+    r = json.loads(err[err.rindex("RESULT ") + 7:].split("\n")[0])
+    order = interact.probe_order(version, allm)
+    if order is None:
+        raise runner.HarnessError("builder probe failed")
+    vals, used = interact.model(ver, order, answers)
+    if vals is None:
+        want = {"eof": True}
+    else:
+        want = {"ret": interact.expected_prefix(version) + "/".join("%s:%s" % mv for mv in vals)}
+    if "exc" in r or ("eof" in want) != ("eof" in r):
+        return [failure(want, r, note="host program read %d line(s) from the pipe first" % lead)]
+    if "ret" in want:
+        got = sorted(r["ret"][len(interact.expected_prefix(version)):].split("/"))
+        if not r["ret"].startswith(interact.expected_prefix(version)) or got != sorted(want["ret"][len(interact.expected_prefix(version)):].split("/")):
+            return [failure(want, r, note="host program read %d line(s) from the pipe first" % lead)]
+    return []
+
+
+CHECKS = {"dialogue": check_dialogue, "piped": check_piped}
+
+
+def piped_part(shard, n, seed):
+    import random
+    part = runner.Part(PID)
+    rng = random.Random(runner.mix(seed, 1616, shard))
+    for i in range(n):
+        version = interact.VERSIONS[(shard + i) % len(interact.VERSIONS)]
+        allm = bool((shard + i) % 2)
+        V = spec.VERS[interact.verkey(version)]
+        order = interact.probe_order(version, allm) or list(V.order if allm else V.mandatory)
+        answers = []
+        for m in order:
+            if rng.random() < 0.3:
+                answers.append(rng.choice(("?", "zz", "", " ", m + ":" + V.table[m][0], "\u00e9")))
+            v = rng.choice(V.table[m])
+            answers.append(rng.choice((v, v.lower(), " " + v, v + "\t")))
+        if rng.random() < 0.2:
+            answers = answers[:rng.randrange(len(answers))]
+        if i % 4 == 3:
+            answers = ["x" * 200] * 60 + answers          # more than one 8 KiB read-ahead chunk of rejected answers first
+        inp = {"version": version, "all_metrics": allm, "answers": answers, "lead": (0, 1, 1, 3)[i % 4]}
+        part.count(inp, nontrivial=True, classes=("real pipe", "real pipe: host read %d line(s) first" % inp["lead"]))
+        part.check("piped", check_piped, inp)
+    return part
 
 
 def covering_cases():
@@ -148,6 +225,8 @@ def run(tier, t0):
         part.nontrivial_count += 1
         part.check("dialogue", check_dialogue, inp)
     part.merge(runner.hyp_shards("vf.props.c16", "hyp_part", 3200 if tier == "quick" else 120000))
+    for p in runner.parallel("vf.props.c16", "piped_part", [(sh, 4 if tier == "quick" else 40, runner.SEED) for sh in range(runner.NPROC)]):
+        part.merge(p)
     from ..fuzz import driver
     fuzz_note = driver.campaign(part, "dialogue", runs=160000 if tier == "quick" else 4000000, only=("dialogue",))
     rule = ("version in {2, 3, 3.0, 3.1, 4, 4.0} x all_metrics x no_colors x answer script (per question 0-3 rejected-looking "
@@ -158,4 +237,4 @@ def run(tier, t0):
                          ["asking order is taken from the returned vector (any order is accepted as long as the result is made of the accepted answers); prompts/banners are not asserted",
                           "invalid answers are drawn from ASCII plus a few non-ASCII characters without ASCII case mappings",
                           "coverage-guided: " + fuzz_note],
-                         required=["atheris-execs:dialogue", "covering", "long-retry", "eof-at-tty", "streams-claim-tty", "retry", "empty-answer", "truncated", "all", "mandatory-only"] + ["version=%r" % (v,) for v in interact.VERSIONS])
+                         required=["real pipe", "atheris-execs:dialogue", "covering", "long-retry", "eof-at-tty", "streams-claim-tty", "retry", "empty-answer", "truncated", "all", "mandatory-only"] + ["version=%r" % (v,) for v in interact.VERSIONS])
